@@ -19,6 +19,13 @@ for d in PROPS:
             files.append('internal/%s/%s'%(d,f))
 out=subprocess.run(['/verif/bin/mutgen']+files,cwd='/repo',capture_output=True,text=True).stdout.strip().split('\n')
 cands=[l.split('\t') for l in out][off::step]
+if len(sys.argv)>3:
+    # retest mode: only the mutants listed as survivors in an earlier campaign output
+    want=set()
+    for l in open(sys.argv[3]):
+        m=re.match(r'(\S+):(\d+)\s+(\S+) -> (\S+)\s+survived',l)
+        if m: want.add((m.group(1),m.group(2),m.group(3),m.group(4)))
+    cands=[c for c in [l.split('\t') for l in out] if (c[0],c[4],c[2],c[3]) in want]
 q=queue.Queue()
 for c in cands: q.put(c)
 results=[]; lock=threading.Lock()
